@@ -226,22 +226,24 @@ def run(res, tier, seed):
     for ci, (case, (rc, evs, err)) in enumerate(zip(cases, results)):
         kind = case[0]
         label = "%s %s %s" % (kind, case[2], case[3])
-        if rc != 0 or not evs or evs[-1].get("e") != "Join":
+        dead = rc != 0 or not evs or evs[-1].get("e") != "Join"
+        if dead:
             if rc == 4 or rc == 2:
                 raise vlib.Infra("harness %s: %s" % (label, err[-500:]))
             crashed.add(ci)
+            tail = [] if evs and evs[-1].get("e") == "Crash" else [{"e": "Crash", "rc": rc}]
             res.violation("harness terminated abnormally while threads shared %s (rc=%s): %s" % (label, rc, err.strip()[-300:]),
-                          evs + [{"e": "Crash", "rc": rc}])
-            continue
-        if evs[-1].get("dropped"):
-            raise vlib.Infra("harness %s: event buffer overflow" % label)
-        for k in ("faults",):
-            stats[k] += evs[-1].get(k, 0)
-        stats["post_freeze_allocations"] += evs[-1].get("postFreezeAllocs", 0)
-        stats["lock_calls"] += evs[-1].get("lockCalls", 0)
+                          [e for e in evs if e["e"] != "Write"] + tail)
+        else:
+            if evs[-1].get("dropped"):
+                raise vlib.Infra("harness %s: event buffer overflow" % label)
+            stats["faults"] += evs[-1].get("faults", 0)
+            stats["post_freeze_allocations"] += evs[-1].get("postFreezeAllocs", 0)
+            stats["lock_calls"] += evs[-1].get("lockCalls", 0)
         head = [e for e in evs if e["e"] in ("Reset", "Seq", "Build", "Freeze")]
-        main = [e for e in evs if e["e"] != "Write"]
-        origin.append((ci, "main")); events += main
+        if not dead:       # a crashed run is reported as such; the stores it recorded before are still validated
+            main = [e for e in evs if e["e"] != "Write"]
+            origin.append((ci, "main")); events += main
         reps = {}
         for e in evs:
             if e["e"] == "Write":
